@@ -98,12 +98,10 @@ Prone12b(a) ==
 (* candidate explanations of an observation, most ideal first.  Forms: "exact" = the reference with  *)
 (* ties between equal counts broken by key (what the code does), then the per-segment forms,         *)
 (* "loose" = the reference with ties not asserted (the README states no tie order)                   *)
-Cands(Mi, Mb, aggs) ==
+CandsFor(Mi, Mb, aggs) ==
   LET a30 == View30Subs(aggs)
       ms == IF Mb = Mi THEN << [M |-> Mi, d |-> {}] >> ELSE << [M |-> Mi, d |-> {}], [M |-> Mb, d |-> {"S07a"}] >>
-      t0 == IF a30 = aggs THEN << [a |-> aggs, d |-> {}] >> ELSE << [a |-> aggs, d |-> {}], [a |-> a30, d |-> {"S30a"}] >>
-      ts == IF ViewCeilSubs(aggs) = aggs THEN t0
-            ELSE [i \in DOMAIN t0 |-> [a |-> ViewCeilSubs(t0[i].a), d |-> t0[i].d]] \o t0     \* what the code does first
+      ts == IF a30 = aggs THEN << [a |-> aggs, d |-> {}] >> ELSE << [a |-> aggs, d |-> {}], [a |-> a30, d |-> {"S30a"}] >>
       prone == (IF \E i \in DOMAIN aggs : Prone12a(aggs[i].a) THEN {"S12a"} ELSE {})
                \cup (IF \E i \in DOMAIN aggs : Prone12b(aggs[i].a) THEN {"S12b"} ELSE {})
                \cup (IF \E i \in DOMAIN aggs : Prone12c(aggs[i].a) THEN {"S12c"} ELSE {})
@@ -118,6 +116,12 @@ Cands(Mi, Mb, aggs) ==
             t == ts[(((i - 1) \div nm) % nt) + 1]
             o == modes[((i - 1) \div (nm * nt)) + 1]
         IN [M |-> m.M, aggs |-> t.a, form |-> o.form, mode |-> o.d, devs |-> m.d \cup t.d \cup o.d]]
+
+(* date_histogram: every explanation under the rounding-up reading (what the code does) is tried before *)
+(* any explanation under the rounding-down reading                                                       *)
+Cands(Mi, Mb, aggs) ==
+  IF ViewCeilSubs(aggs) = aggs THEN CandsFor(Mi, Mb, aggs)
+  ELSE CandsFor(Mi, Mb, ViewCeilSubs(aggs)) \o CandsFor(Mi, Mb, aggs)
 
 Explains(c, nseg, obs) ==
   IF c.form = "seg" THEN AgreeAll(D, ShapedAll(D, PartsOf(c.M, nseg), c.aggs, c.mode), obs, TRUE)
